@@ -35,7 +35,13 @@ def _base_model(h):
     return C03.model(h, C03.NP)
 
 
+def _agg_replay(keys):
+    return lambda ev: {"target": "verif_replays:aggregate_replay", "args": [list(keys)], "check": "result['exc'] is None and result['ok']"}
+
+
 def _agg_unit(aggname, keys):
+    rp = _agg_replay(keys)
+
     @unit("C01", f"aggregate_votes.{aggname}", fns=[f"{BASE}._get_reporting_aggregate_votes"])
     def votes(h):
         t = Three(h, "turnout")
@@ -50,13 +56,13 @@ def _agg_unit(aggname, keys):
         rows = z3.And(*res.axis.facts())
         want_res = sR if classification else sR + sT
         c = res.col("results_turnout")
-        h.ensures("counted_votes", z3.Implies(rows, z3.And(c.t == want_res, z3.Not(c.nan) if c.nan is not None else True)))
+        h.ensures("counted_votes", z3.Implies(rows, z3.And(c.t == want_res, z3.Not(c.nan) if c.nan is not None else True)), replay=rp)
         r = res.col("reporting")
-        h.ensures("reporting_count", z3.Implies(rows, z3.And(r.t == cR, z3.Not(r.nan) if r.nan is not None else True)))
+        h.ensures("reporting_count", z3.Implies(rows, z3.And(r.t == cR, z3.Not(r.nan) if r.nan is not None else True)), replay=rp)
         # group domain: exactly the groups that have a reporting unit or (unless classification) an attributable third-frame unit
         mR, mT = t.member("R", keys), t.member("T", keys)
         pres = res.axis.present()
-        h.ensures("group_domain.contains_every_contributing_unit", z3.Implies(z3.And(*t.root.facts()), z3.Implies(mR if classification else z3.Or(mR, mT), pres)))
+        h.ensures("group_domain.contains_every_contributing_unit", z3.Implies(z3.And(*t.root.facts()), z3.Implies(mR if classification else z3.Or(mR, mT), pres)), replay=rp)
         h.ensures("once_per_group", len(res.axis.doms) == 1 and isinstance(res.axis.root, frames.KeySpace))
         h.ensures("columns", list(res.cols) == list(keys) + ["results_turnout", "reporting"])
 
@@ -84,13 +90,13 @@ def _agg_unit(aggname, keys):
             return z3.Not(c.nan) if c.nan is not None else z3.BoolVal(True)
 
         c = res.col("results_turnout")
-        h.ensures("counted_votes", z3.Implies(rows, z3.And(c.t == counted + sN, nn(c))))
+        h.ensures("counted_votes", z3.Implies(rows, z3.And(c.t == counted + sN, nn(c))), replay=rp)
         p = res.col("pred_turnout")
-        h.ensures("C02.pred_identity", z3.Implies(rows, z3.And(p.t == counted + pN, nn(p))))
+        h.ensures("C02.pred_identity", z3.Implies(rows, z3.And(p.t == counted + pN, nn(p))), replay=rp)
         r = res.col("reporting")
-        h.ensures("reporting_count", z3.Implies(rows, z3.And(r.t == cR, nn(r))))
+        h.ensures("reporting_count", z3.Implies(rows, z3.And(r.t == cR, nn(r))), replay=rp)
         mR, mT, mN = t.member("R", keys), t.member("T", keys), t.member("N", keys)
-        h.ensures("group_domain.contains_every_contributing_unit", z3.Implies(z3.And(*t.root.facts()), z3.Implies(z3.Or(mR, mN) if classification else z3.Or(mR, mT, mN), res.axis.present())))
+        h.ensures("group_domain.contains_every_contributing_unit", z3.Implies(z3.And(*t.root.facts()), z3.Implies(z3.Or(mR, mN) if classification else z3.Or(mR, mT, mN), res.axis.present())), replay=rp)
         h.ensures("sorted_by_group_key", res.axis.order == ("sorted", tuple(keys)))
         h.ensures("columns", list(res.cols) == list(keys) + ["pred_turnout", "results_turnout", "reporting"])
 
